@@ -115,6 +115,30 @@ def run_echo(res, tier):
         shutil.rmtree(tmp, ignore_errors=True)
 
 # ---------------------------------------------------------------- (b) raw recording TLS server
+def end_tls(tls, wait=1.5):
+    """orderly end of a server-side connection: close_notify, FIN, then read until the peer has closed (bounded by `wait`
+    seconds), and only then close().  A bare close() right after the reply is a race: the client under test answers a non-2x
+    header by closing at once, its close_notify can reach this socket between sendall() and close(), and closing a socket
+    with unread bytes makes the kernel send RST instead of FIN - the client then reports "Connection reset by peer" for a
+    response it has received in full.  A reset is a transport failure, not an answer a scripted server is meant to give
+    (resets at every offset are C13's subject and are injected deliberately there), so the scripted servers never cause one."""
+    end = time.time() + wait
+    try:
+        tls.settimeout(wait)
+        tls.unwrap()                          # sends close_notify and waits for the peer's
+    except (ssl.SSLError, OSError, ValueError):
+        pass
+    try: tls.shutdown(socket.SHUT_WR)         # FIN; the object reads the plain socket from here on
+    except (OSError, ValueError): pass
+    try:
+        while time.time() < end:
+            tls.settimeout(max(0.05, end - time.time()))
+            if not tls.recv(4096): break      # b"" = the peer has closed: nothing unread is left behind
+    except (ssl.SSLError, OSError, ValueError):
+        pass
+    try: tls.close()
+    except OSError: pass
+
 class RecordingServer(threading.Thread):
     """accepts TLS connections with the given certificate, records application bytes, answers a fixed response
     (reply_for(request bytes) may be overridden: harness/cliclient.py scripts per-URL answers); threaded=True handles every
@@ -144,8 +168,7 @@ class RecordingServer(threading.Thread):
             if b"\r\n" in data:
                 try: tls.sendall(self.reply_for(data))
                 except OSError: pass
-            try: tls.close()
-            except OSError: pass
+            end_tls(tls)
         except (ssl.SSLError, OSError):
             self.received.append(b"")
     def run(self):
